@@ -278,7 +278,7 @@ func TestC06(t *testing.T) {
 		m.Inconclusive("reference self-test failed: " + err.Error())
 		return
 	}
-	total := m.N(1500, 50000)
+	total := m.N(6000, 200000)
 	m.Cases("hist", total, func(i int64, r *rand.Rand) {
 		a := algB
 		if i%2 == 1 {
@@ -342,7 +342,7 @@ func TestC06(t *testing.T) {
 		probed := false
 		resetDone := false
 		wantReset := stratum == 7 || stratum == 6 || r.IntN(3) == 0
-		resetMid := wantReset && r.IntN(2) == 0
+		resetMid := wantReset && r.IntN(2) == 0 && stratum != 1 // long unknown-length histories always run to their target first
 		resetAt := uint64(r.Int64N(int64(target) + 1))
 		maxReaders := 1
 		for steps := 0; steps < 200000 && !h.bad; steps++ {
@@ -425,17 +425,17 @@ func TestC06(t *testing.T) {
 		}
 	})
 	q := func(a, b int) int { return m.N(a, b) }
-	m.Gate("reads_straddling_node_boundary", q(3000, 100000), "reads whose bytes come from more than one BLAKE2X node")
-	m.Gate("reads_starting_mid_node", q(3000, 100000), "reads starting inside a partially consumed node")
-	m.Gate("reads_into_last_partial_node", q(300, 10000), "reads delivering bytes of a final node shorter than Out (digest length = L mod Out)")
-	m.Gate("reads_straddling_into_last_partial_node", q(100, 3000), "one read crossing from a full node into the final partial node")
-	m.Gate("eof_exactly_after_declared_length", q(1500, 50000), "non-empty Read after exactly L delivered bytes returned io.EOF")
-	m.Gate("unknown_length_crossed_2^16:blake2s", q(40, 1500), "BLAKE2Xs unknown-length output read beyond 2^16 bytes")
-	m.Gate("unknown_length_crossed_300KiB:blake2b", q(5, 150), "BLAKE2Xb unknown-length output read beyond 300 KiB")
-	m.Gate("clones_in_write_mode", q(150, 5000), "Clone before the first Read, both then absorb different tails")
-	m.Gate("clones_in_read_mode", q(200, 8000), "Clone at a read position, original and clone driven with different chunkings")
-	m.Gate("write_after_read_panics", q(1500, 50000), "documented panic of Write after Read observed")
-	m.Gate("resets_checked", q(300, 10000), "Reset, second message, output compared from position 0")
+	m.Gate("reads_straddling_node_boundary", q(12000, 400000), "reads whose bytes come from more than one BLAKE2X node")
+	m.Gate("reads_starting_mid_node", q(12000, 400000), "reads starting inside a partially consumed node")
+	m.Gate("reads_into_last_partial_node", q(1200, 40000), "reads delivering bytes of a final node shorter than Out (digest length = L mod Out)")
+	m.Gate("reads_straddling_into_last_partial_node", q(400, 12000), "one read crossing from a full node into the final partial node")
+	m.Gate("eof_exactly_after_declared_length", q(6000, 200000), "non-empty Read after exactly L delivered bytes returned io.EOF")
+	m.Gate("unknown_length_crossed_2^16:blake2s", q(160, 6000), "BLAKE2Xs unknown-length output read beyond 2^16 bytes")
+	m.Gate("unknown_length_crossed_300KiB:blake2b", q(20, 600), "BLAKE2Xb unknown-length output read beyond 300 KiB")
+	m.Gate("clones_in_write_mode", q(600, 20000), "Clone before the first Read, both then absorb different tails")
+	m.Gate("clones_in_read_mode", q(800, 32000), "Clone at a read position, original and clone driven with different chunkings")
+	m.Gate("write_after_read_panics", q(6000, 200000), "documented panic of Write after Read observed")
+	m.Gate("resets_checked", q(1200, 40000), "Reset, second message, output compared from position 0")
 }
 
 // reset: Reset must return to a fresh XOF in write mode with the same L/key.
